@@ -34,7 +34,7 @@ PROP = {
         "name": "gossip", "pkg": "discovery", "test": "TestVerifC20",
         "files": ["discovery/c20_test.go"],
         "shards": {"quick": 8, "thorough": 16},
-        "watchdog": {"quick": 600, "thorough": 3000},
+        "watchdog": {"quick": 900, "thorough": 5400},
         "floors": {"quick": {"msgs": 7400, "oracle_graph_evals": 7500, "oracle_bcast_evals": 1500,
                              "ref_invalid": 5600, "applied_ca": 600, "applied_cu": 520, "applied_na": 410,
                              "premature_reprocessed": 90, "future_reinjected": 20},
